@@ -4,7 +4,7 @@ import "strings"
 
 func init() {
 	register("C11", runC11, propMeta{
-		Explanation: "Decides structural necessary conditions of 'the result map is exactly the set of rules that returned in this call', for every execute method and every rule set: (M1) the store g.returnResult = make(...) dominates every rule execution, go statement, addResult call and every return other than the rb==nil one, so nothing of an earlier call survives and no nil map is written; (M2) every RuleEntity.Execute call site has its returned-flag tested on all paths and the true edge calls addResult with the RuleName of the same receiver and the value of the same call, and no other addResult call exists; (M3) in internal/base the third result of every (value, error, flag) evaluator is false, a child's flag passed through, or true only in ReturnStatement/BreakStmt/ContinueStmt, and a true flag in ReturnStatement.Evaluate is returned only with a nil error; (M4) RuleEntity.Execute maps the zero reflect.Value to a nil interface; and nil is handed up only for that zero value, v.Interface() otherwise; (M5) addResult holds g.lock around the map write and is the only writer of the map; (M6) in IfStmt.Evaluate a true condition evaluates its branch and an existing else runs when all conditions are false, and in ForStmt.Evaluate and ForRangeStmt.Evaluate every pass of the loop evaluates the body, so a `return` placed in a branch or a loop body is reached. (M7) every pool method returns the result map it read from the acquired engine after that engine's call. Not decided: the values themselves. addResult stores the given value under the given name on every call (no way round the store): a nil result is an entry too. Where an evaluator hands on a child's returned-flag it hands on that child's value (M3-value-travels-with-flag). Each pool instance has an engine object of its own, made by the constructor in the iteration that makes the wrapper and never replaced (M8), so overlapping pool calls never share a result map. No way from the engine call of a pool method to a return goes round the read of the result map.",
+		Explanation: "Decides structural necessary conditions of 'the result map is exactly the set of rules that returned in this call', for every execute method and every rule set: (M1) the store g.returnResult = make(...) dominates every rule execution, go statement, addResult call and every return other than the rb==nil one, so nothing of an earlier call survives and no nil map is written; (M2) every RuleEntity.Execute call site has its returned-flag tested on all paths and the true edge calls addResult with the RuleName of the same receiver and the value of the same call, and no other addResult call exists; (M3) in internal/base the third result of every (value, error, flag) evaluator is false, a child's flag passed through, or true only in ReturnStatement/BreakStmt/ContinueStmt, and a true flag in ReturnStatement.Evaluate is returned only with a nil error; (M4) RuleEntity.Execute maps the zero reflect.Value to a nil interface; and nil is handed up only for that zero value, v.Interface() otherwise; (M5) addResult holds g.lock around the map write and is the only writer of the map; (M6) in IfStmt.Evaluate a true condition evaluates its branch and an existing else runs when all conditions are false, and in ForStmt.Evaluate and ForRangeStmt.Evaluate every pass of the loop evaluates the body, so a `return` placed in a branch or a loop body is reached. (M7) every pool method returns the result map it read from the acquired engine after that engine's call. Not decided: the values themselves. addResult stores the given value under the given name on every call (no way round the store): a nil result is an entry too. Where an evaluator hands on a child's returned-flag it hands on that child's value (M3-value-travels-with-flag). Each pool instance has an engine object of its own, made by the constructor in the iteration that makes the wrapper and never replaced (M8), so overlapping pool calls never share a result map. No way from the engine call of a pool method to a return goes round the read of the result map. After the body of one branch of an if chain has run no other branch body can run (a branch taken without a return must not reach the return of a later one).",
 		Assumptions: []string{"reflect, sync and the Go memory model behave as documented", "the host does not write Gengine.returnResult (unexported)"},
 		Trusted:     commonTrusted,
 	})
@@ -47,7 +47,7 @@ func init() {
 		// a `return` inside a branch or a loop body is reached: a true condition evaluates its branch, every
 		// pass of a loop evaluates the body (the part of the statement rules of C02 that bears on the result map)
 		c.only = func(key string) bool {
-			return strings.HasSuffix(key, "-runs-body") || strings.HasSuffix(key, "-runs-else")
+			return strings.HasSuffix(key, "-runs-body") || strings.HasSuffix(key, "-runs-else") || strings.HasSuffix(key, "-body-then-nothing")
 		}
 		c.ruleS2("M6-body-evaluated")
 		c.ruleS3("M6-body-evaluated")
